@@ -42,17 +42,33 @@ func ParseTableName(ctx context.Context, scope *ReferenceScope, table parser.Tab
 		return name, err
 	}
 
+	if obj, ok := tableObject.(parser.FormatSpecifiedFunction); ok {
+		return ParseTableName(ctx, scope, parser.Table{Object: obj.Path})
+	}
+	return tableNameOf(table, tableObject), nil
+}
+
+// tableNameOf returns the name of a table from its normalized object (see NormalizeTableObject) without
+// evaluating anything, so that a caller that also loads the object evaluates the arguments of a table
+// function only once.
+func tableNameOf(table parser.Table, tableObject parser.QueryExpression) parser.Identifier {
+	if table.Alias != nil {
+		return table.Alias.(parser.Identifier)
+	}
+
+	name := parser.Identifier{
+		BaseExpr: tableObject.GetBaseExpr(),
+	}
+
 	switch obj := tableObject.(type) {
 	case parser.Identifier:
 		name.Literal = FormatTableName(obj.Literal)
 	case parser.Stdin:
 		name.Literal = obj.String()
-	case parser.FormatSpecifiedFunction:
-		return ParseTableName(ctx, scope, parser.Table{Object: obj.Path})
 	default:
 		// Do Nothing
 	}
-	return name, nil
+	return name
 }
 
 func NormalizeTableObject(ctx context.Context, scope *ReferenceScope, tableObject parser.QueryExpression) (parser.QueryExpression, error) {
